@@ -272,6 +272,13 @@ func checkHoistUnderConjunctionOnly(r *Run) {
 						out[namedName(tv.Type)] = true
 					}
 				}
+			case *ast.Ident:
+				// hasAncestor[*cypher.Negation](…): the type a generic helper is instantiated with
+				if inst, has := info.Instances[x]; has && inst.TypeArgs != nil {
+					for i := 0; i < inst.TypeArgs.Len(); i++ {
+						out[namedName(inst.TypeArgs.At(i))] = true
+					}
+				}
 			}
 			return true
 		})
@@ -283,13 +290,10 @@ func checkHoistUnderConjunctionOnly(r *Run) {
 			continue
 		}
 		// hoisting site: a case clause (or function) that appends to a pattern's Kinds and removes the node from a list
-		ast.Inspect(fd.Body, func(x ast.Node) bool {
-			cc, ok := x.(*ast.CaseClause)
-			if !ok {
-				return true
-			}
+		// the unit that does both: a case clause, or — when the clause hands the node to a method — that method's body
+		hoistsIn := func(list []ast.Stmt) bool {
 			appendsKinds, removes := false, false
-			for _, st := range cc.Body {
+			for _, st := range list {
 				ast.Inspect(st, func(m ast.Node) bool {
 					switch y := m.(type) {
 					case *ast.AssignStmt:
@@ -306,107 +310,147 @@ func checkHoistUnderConjunctionOnly(r *Run) {
 					return true
 				})
 			}
-			if !appendsKinds || !removes {
-				return true
+			return appendsKinds && removes
+		}
+		inClause := false
+		ast.Inspect(fd.Body, func(x ast.Node) bool {
+			if cc, ok := x.(*ast.CaseClause); ok && hoistsIn(cc.Body) {
+				inClause = true
 			}
-			n++
-			// guards: bool-returning methods called in conditions of `if … { return }` inside the clause
-			guarded := map[string]bool{}
-			for _, st := range cc.Body {
-				ast.Inspect(st, func(m ast.Node) bool {
-					ifs, ok := m.(*ast.IfStmt)
-					if !ok {
-						return true
-					}
-					returns := false
-					for _, b := range ifs.Body.List {
-						if _, isRet := b.(*ast.ReturnStmt); isRet {
-							returns = true
-						}
-					}
-					if !returns {
-						return true
-					}
-					ast.Inspect(ifs.Cond, func(k ast.Node) bool {
-						if call, ok := k.(*ast.CallExpr); ok {
-							if callee := calleeOf(info, call); callee != nil && decls[callee] != nil {
-								for t := range typesNamedIn(decls[callee]) {
-									guarded[t] = true
+			return true
+		})
+		var units []*ast.CaseClause
+		if !inClause && hoistsIn(fd.Body.List) {
+			units = append(units, &ast.CaseClause{Case: fd.Body.Lbrace, Colon: fd.Body.Lbrace, Body: fd.Body.List})
+		}
+		ast.Inspect(fd.Body, func(x ast.Node) bool {
+			if cc, ok := x.(*ast.CaseClause); ok && hoistsIn(cc.Body) {
+				units = append(units, cc)
+			}
+			return true
+		})
+		for _, cc := range units {
+			func(x ast.Node) bool {
+				appendsKinds, removes := false, false
+				for _, st := range cc.Body {
+					ast.Inspect(st, func(m ast.Node) bool {
+						switch y := m.(type) {
+						case *ast.AssignStmt:
+							for _, l := range y.Lhs {
+								if sel, ok := ast.Unparen(l).(*ast.SelectorExpr); ok && sel.Sel.Name == "Kinds" {
+									appendsKinds = true
 								}
+							}
+						case *ast.CallExpr:
+							if sel, ok := y.Fun.(*ast.SelectorExpr); ok && sel.Sel.Name == "Remove" {
+								removes = true
 							}
 						}
 						return true
 					})
-					return true
-				})
-			}
-			var missing []string
-			for _, t := range []string{"Negation", "Disjunction", "ExclusiveDisjunction"} {
-				if !guarded[t] {
-					missing = append(missing, t)
 				}
-			}
-			construct := shortFuncName(fn) + ":kind-matcher-hoist"
-			if len(missing) == 0 {
-				r.Pass(rule, construct, cc.Pos(), "the move is skipped under NOT, OR and XOR ancestors")
-			} else {
-				r.Fail(rule, construct, cc.Pos(), "a relationship kind test is moved from WHERE into the match pattern without checking for %v ancestors: Or(KindIn(r, A), r.x = 1) renders as `match ()-[r:A]->() where r.x = $p0`, the conjunction of the two", missing)
-			}
-			// hoist-once: the pattern's kinds are alternatives, so the append must be conditional on the pattern having none
-			for _, st := range cc.Body {
-				ast.Inspect(st, func(m ast.Node) bool {
-					as, ok := m.(*ast.AssignStmt)
-					if !ok || len(as.Lhs) != 1 {
+				if !appendsKinds || !removes {
+					return true
+				}
+				n++
+				// guards: bool-returning methods called in conditions of `if … { return }` inside the clause
+				guarded := map[string]bool{}
+				for _, st := range cc.Body {
+					ast.Inspect(st, func(m ast.Node) bool {
+						ifs, ok := m.(*ast.IfStmt)
+						if !ok {
+							return true
+						}
+						returns := false
+						for _, b := range ifs.Body.List {
+							if _, isRet := b.(*ast.ReturnStmt); isRet {
+								returns = true
+							}
+						}
+						if !returns {
+							return true
+						}
+						ast.Inspect(ifs.Cond, func(k ast.Node) bool {
+							if call, ok := k.(*ast.CallExpr); ok {
+								if callee := calleeOf(info, call); callee != nil && decls[callee] != nil {
+									for t := range typesNamedIn(decls[callee]) {
+										guarded[t] = true
+									}
+								}
+							}
+							return true
+						})
 						return true
+					})
+				}
+				var missing []string
+				for _, t := range []string{"Negation", "Disjunction", "ExclusiveDisjunction"} {
+					if !guarded[t] {
+						missing = append(missing, t)
 					}
-					sel, ok := ast.Unparen(as.Lhs[0]).(*ast.SelectorExpr)
-					if !ok || sel.Sel.Name != "Kinds" {
-						return true
-					}
-					emptyGuard := false
-					var impliesEmpty func(e ast.Expr, neg bool) bool
-					impliesEmpty = func(e ast.Expr, neg bool) bool {
-						e = ast.Unparen(e)
-						switch t := e.(type) {
-						case *ast.UnaryExpr:
-							if t.Op == token.NOT {
-								return impliesEmpty(t.X, !neg)
-							}
-						case *ast.BinaryExpr:
-							if t.Op == token.LAND && !neg {
-								return impliesEmpty(t.X, false) || impliesEmpty(t.Y, false)
-							}
-							if t.Op == token.LOR && neg {
-								return impliesEmpty(t.X, true) || impliesEmpty(t.Y, true)
-							}
-							if call, ok := ast.Unparen(t.X).(*ast.CallExpr); ok && len(call.Args) == 1 {
-								if id, ok := call.Fun.(*ast.Ident); ok && id.Name == "len" {
-									if s2, ok := ast.Unparen(call.Args[0]).(*ast.SelectorExpr); ok && s2.Sel.Name == "Kinds" {
-										if tv, has := info.Types[t.Y]; has && tv.Value != nil && tv.Value.String() == "0" {
-											return (t.Op == token.EQL && !neg) || ((t.Op == token.NEQ || t.Op == token.GTR) && neg)
+				}
+				construct := shortFuncName(fn) + ":kind-matcher-hoist"
+				if len(missing) == 0 {
+					r.Pass(rule, construct, cc.Pos(), "the move is skipped under NOT, OR and XOR ancestors")
+				} else {
+					r.Fail(rule, construct, cc.Pos(), "a relationship kind test is moved from WHERE into the match pattern without checking for %v ancestors: Or(KindIn(r, A), r.x = 1) renders as `match ()-[r:A]->() where r.x = $p0`, the conjunction of the two", missing)
+				}
+				// hoist-once: the pattern's kinds are alternatives, so the append must be conditional on the pattern having none
+				for _, st := range cc.Body {
+					ast.Inspect(st, func(m ast.Node) bool {
+						as, ok := m.(*ast.AssignStmt)
+						if !ok || len(as.Lhs) != 1 {
+							return true
+						}
+						sel, ok := ast.Unparen(as.Lhs[0]).(*ast.SelectorExpr)
+						if !ok || sel.Sel.Name != "Kinds" {
+							return true
+						}
+						emptyGuard := false
+						var impliesEmpty func(e ast.Expr, neg bool) bool
+						impliesEmpty = func(e ast.Expr, neg bool) bool {
+							e = ast.Unparen(e)
+							switch t := e.(type) {
+							case *ast.UnaryExpr:
+								if t.Op == token.NOT {
+									return impliesEmpty(t.X, !neg)
+								}
+							case *ast.BinaryExpr:
+								if t.Op == token.LAND && !neg {
+									return impliesEmpty(t.X, false) || impliesEmpty(t.Y, false)
+								}
+								if t.Op == token.LOR && neg {
+									return impliesEmpty(t.X, true) || impliesEmpty(t.Y, true)
+								}
+								if call, ok := ast.Unparen(t.X).(*ast.CallExpr); ok && len(call.Args) == 1 {
+									if id, ok := call.Fun.(*ast.Ident); ok && id.Name == "len" {
+										if s2, ok := ast.Unparen(call.Args[0]).(*ast.SelectorExpr); ok && s2.Sel.Name == "Kinds" {
+											if tv, has := info.Types[t.Y]; has && tv.Value != nil && tv.Value.String() == "0" {
+												return (t.Op == token.EQL && !neg) || ((t.Op == token.NEQ || t.Op == token.GTR) && neg)
+											}
 										}
 									}
 								}
 							}
+							return false
 						}
-						return false
-					}
-					for _, l := range controlConds(fd.Body, as) {
-						if impliesEmpty(l.Expr, l.Neg) {
-							emptyGuard = true
+						for _, l := range controlConds(fd.Body, as) {
+							if impliesEmpty(l.Expr, l.Neg) {
+								emptyGuard = true
+							}
 						}
-					}
-					c2 := shortFuncName(fn) + ":kind-matcher-hoist-once"
-					if emptyGuard {
-						r.Pass(rule, c2, as.Pos(), "a kind test is moved into the pattern only while the pattern has no kinds yet")
-					} else {
-						r.Fail(rule, c2, as.Pos(), "every relationship kind test is appended to the pattern's kinds, which are alternatives: And(KindIn(r, A, B), KindIn(r, B, C)) renders as [r:A|B|B|C], any of the three, instead of the intersection")
-					}
-					return true
-				})
-			}
-			return true
-		})
+						c2 := shortFuncName(fn) + ":kind-matcher-hoist-once"
+						if emptyGuard {
+							r.Pass(rule, c2, as.Pos(), "a kind test is moved into the pattern only while the pattern has no kinds yet")
+						} else {
+							r.Fail(rule, c2, as.Pos(), "every relationship kind test is appended to the pattern's kinds, which are alternatives: And(KindIn(r, A, B), KindIn(r, B, C)) renders as [r:A|B|B|C], any of the three, instead of the intersection")
+						}
+						return true
+					})
+				}
+				return true
+			}(cc)
+		}
 	}
 	if n == 0 {
 		r.Undecide("C10-R6: no kind-matcher hoisting site found in query/neo4j")
